@@ -251,6 +251,11 @@ Step(S, c, a, tm, obs) ==
     THEN (* queued; an unknown command may also be refused at once, which dooms the EXEC *)
          SOut(RSt(L_QUEUED), [S EXCEPT !.conns[c].queue = Append(cn.queue, a)])
          \cup (IF name = "?" THEN SOut(RErr, [S EXCEPT !.conns[c].qerr = TRUE]) ELSE {})
+         \cup (* known finding: these are dispatched before the queueing decision and run at once *)
+              (IF name \in {"PUBLISH", "AUTH", "SUBSCRIBE", "UNSUBSCRIBE", "PSUBSCRIBE", "PUNSUBSCRIBE"}
+                  /\ "txn_immediate" \in Deviations
+               THEN {[o EXCEPT !.dv = o.dv \cup {"txn_immediate"}] : o \in Exec1(S, c, a, tm, obs, FALSE)}
+               ELSE {})
     ELSE Exec1(S, c, a, tm, obs, FALSE)
 
 (* expiry of entries of database d as seen by a request in tm; watchers see the removal *)
